@@ -38,6 +38,6 @@ def GetRand_cond_1 (p_Oracle : Bool) : Option (Bool) := do
 def untranslated : List String := []
 
 /-- names of the translated definitions -/
-def translated : List String := ["GetRand_seedBT_1", "GetRand_seedBH_1", "GetRand_seedTI_1", "GetRand_seedSum_1", "GetRand_seedSum_2", "GetRand_seedOS_1", "GetRand_seedSum_3", "GetRand_precision_1", "GetRand_cond_1"]
+def translated : List String := ["GetRand_seedBT_1(p_BlockTimestamp)", "GetRand_seedBH_1(read_new_big_Int_SetBytes_SHA256_p_BlockHash,seedBT)", "GetRand_seedTI_1(read_new_big_Int_SetBytes_SHA256_p_TxInitiator,seedBT)", "GetRand_seedSum_1(seedBT,seedBH)", "GetRand_seedSum_2(seedSum,seedTI)", "GetRand_seedOS_1(read_new_big_Int_SetBytes_SHA256_p_OracleSeed,seedBT)", "GetRand_seedSum_3(seedSum,seedOS)", "GetRand_precision_1()", "GetRand_cond_1(p_Oracle)"]
 
 end Irismod.Gen.PureRandom
